@@ -1024,10 +1024,20 @@ fn classify_text(t: &str) -> TextVerdict {
             _ => TextVerdict::Reject,
         };
     }
-    if b[0] == b'+' && b.len() > 1 && b[1..].iter().all(u8::is_ascii_digit) {
+    // a decimal number with an explicit plus sign or surrounded by ASCII white space: the
+    // statement promises nothing about such text (a parser may tolerate or refuse it); if
+    // it is accepted it means that number
+    if tolerated_digits(t).is_some() {
         return TextVerdict::Free;
     }
     TextVerdict::Reject
+}
+
+/// The digits of "  +123 "-like text (ASCII white space around, at most one leading '+').
+fn tolerated_digits(t: &str) -> Option<&str> {
+    let inner = t.trim_matches(|c: char| c.is_ascii_whitespace());
+    let inner = inner.strip_prefix('+').unwrap_or(inner);
+    (!inner.is_empty() && inner.bytes().all(|c| c.is_ascii_digit())).then_some(inner)
 }
 
 fn serial_text(t: &str) -> Result<bool, Fail> {
@@ -1044,6 +1054,18 @@ fn serial_text(t: &str) -> Result<bool, Fail> {
         (TextVerdict::Reject, Ok(s)) => Err(Fail::sig("serial-accepts-malformed", format!(
             "from_str accepts {:?} (not a decimal number below 2^159) as {}", t, hex20(&s.into_array())
         ))),
+        (TextVerdict::Free, Ok(s)) => {
+            if let Some(d) = tolerated_digits(t) {
+                match dec_to_limbs(d.as_bytes()) {
+                    Some(l) if l[0] & 0x8000_0000 == 0 => ensure_sig!(
+                        s.into_array() == bytes_of(&l), "serial-decimal",
+                        "from_str({:?}) = {}, the number written there is {}", t, hex20(&s.into_array()), hex20(&bytes_of(&l))
+                    ),
+                    _ => return Err(Fail::sig("serial-accepts-malformed", format!("from_str accepts {:?}, a number of 2^159 or more, as {}", t, hex20(&s.into_array())))),
+                }
+            }
+            Ok(false)
+        }
         _ => Ok(false),
     }
 }
